@@ -333,50 +333,51 @@ def r03_5(ctx):
 
 @rule("R03.6", ["C03", "C02", "C04"], "T-GATE", floor=8)
 def r03_6(ctx):
-    """CRC: append_crc(x) = x ++ BE16(crc_hqx(x, 0xFFFF)); _unwrap returns (data[0], data[1:-2]) only on the path
-    where the 2-byte big-endian crc_hqx(data[:-2], 0xFFFF) was compared equal to data[-2:] as a whole (or both of
-    its bytes were), raises ParsingError otherwise and for lengths 0..2; every from_bytes of the dispatch list
-    obtains its fields through _unwrap."""
+    """CRC, evaluated on concrete frames against an independently written bit-serial CRC-CCITT: append_crc(x) = x ++ BE16(crc(x),
+    seed 0xFFFF); _unwrap returns (data[0], data[1:-2]) for frames with a correct CRC (bytes and bytearray alike), raises
+    ParsingError for lengths 0..2 and for *every* single-bit and (short frames) double-bit corruption of a valid frame - in the
+    control byte, the data field or either CRC byte; every from_bytes of the dispatch list obtains its fields through _unwrap."""
     repo = ctx.repo
-    # append_crc on symbolic data
+    cpx = concrete_px(ctx)
+    # append_crc against the independently written CRC (bit-serial CRC-CCITT, seed 0xFFFF, big-endian)
     f = repo.func(f"{ASH}:AshFrame.append_crc")
     ctx.fn(f)
-    px = PX(repo, inline=same_class())
-    for p in px.explore(f, lambda: (None, {"data": Sym("D")})):
-        crc = [e for e in p.events if e.kind == "call" and e.what.endswith("crc_hqx")]
-        tb = [e for e in p.events if e.kind == "call" and e.what.endswith(".to_bytes")]
-        ok = (p.terminal == "return" and len(crc) == 1 and crc[0].args == (Sym("D"), 0xFFFF) and len(tb) == 1
-              and tb[0].args == (2, "big") and tb[0].callee == f"{crc[0].extra.tag}.to_bytes"
-              and isinstance(p.value, Sym) and p.value.tag == f"(D + {tb[0].extra.tag})")
-        ctx.require(ok, "append_crc", f"append_crc(D) = {p.value!r} via {[e.brief() for e in crc + tb]}; must be "
-                    "D + crc_hqx(D, 0xFFFF).to_bytes(2, 'big')", func=f, trace=p.trace())
-    # _unwrap
+    for x in (b"", b"\x00", b"\xc0", b"\x7e\x7d\x11\x13\x18\x1a", bytes(range(200)), b"\xff" * 131):
+        p = run1(ctx, cpx, f, None, {"data": x})
+        got = as_bytes(p.value) if p.terminal == "return" else None
+        ctx.require(got == spec_with_crc(x), "append_crc", f"append_crc({x.hex()[:24]}{'...' if len(x) > 12 else ''}) = {got.hex()[-12:] if got else p.value!r}; must be the data followed "
+                    f"by the big-endian CRC-CCITT (seed 0xFFFF) {spec_with_crc(x)[-2:].hex()}", func=f, trace=p.trace())
+    # _unwrap: evaluated on concrete frames (whatever way the comparison is written)
     f = repo.func(f"{ASH}:AshFrame._unwrap")
     ctx.fn(f)
-    cpx = concrete_px(ctx)
+    af = lambda: repo.cls(ASH, "AshFrame")
     for d in (b"", b"\x80", b"\x80\x70"):
-        p = run1(ctx, cpx, f, lambda: repo.cls(ASH, "AshFrame"), {"data": d})
+        p = run1(ctx, cpx, f, af, {"data": d})
         ctx.require(p.raised("ParsingError"), f"unwrap-short({len(d)})", f"_unwrap of {len(d)} bytes -> {p.terminal} {p.value!r}", func=f)
-    px = PX(repo, inline=same_class(), facts={"(3 < len(D))": True, "(len(D) < 3)": False})
-    paths = px.explore(f, lambda: (repo.cls(ASH, "AshFrame"), {"data": Sym("D")}))
-    ctx.anchor(any(p.terminal == "return" for p in paths), "_unwrap has a returning path")
-    for p in paths:
-        crc = [e for e in p.events if e.kind == "call" and e.what.endswith("crc_hqx")]
-        if p.terminal == "return":
-            eq_true = [t for t, v in p.assumes if v and "==" in t] + [t for t, v in p.assumes if (not v) and " == " not in t and "!=" in t]
-            eq_false = [t for t, v in p.assumes if not v and "==" in t]
-            ok = len(crc) == 1 and crc[0].args == (Sym("D[None:-2]"), 0xFFFF)
-            tags = [t for t, v in p.assumes if v]
-            whole = any("D[-2:None]" in t and ".to_bytes#" in t and "==" in t for t in tags)
-            halves = (any("D[-2]" in t and "==" in t for t in tags) and any("D[-1]" in t and "==" in t for t in tags))
-            tb = [e for e in p.events if e.kind == "call" and e.what.endswith(".to_bytes")]
-            ok = ok and (whole or halves) and (not tb or tb[0].args == (2, "big"))
-            ok = ok and p.value == (Sym("D[0]"), Sym("D[1:-2]"))
-            ctx.require(ok, "unwrap-return", f"_unwrap returns {p.value!r} after assuming {p.assumes}; it must return "
-                        "(data[0], data[1:-2]) only when the whole 2-byte CRC of data[:-2] (seed 0xFFFF, big-endian) equals data[-2:]",
-                        func=f, trace=p.trace())
-        else:
-            ctx.require(p.raised("ParsingError"), "unwrap-raise", f"_unwrap raises {p.value!r}", func=f)
+    bodies = (b"\x83", b"\xc1\x02\x0b", b"\x25\x42\x21\xa8\x56", bytes(range(40, 70)))
+    n_flip = 0
+    for body in bodies:
+        good = spec_with_crc(body)
+        for carrier in (bytes, bytearray):
+            p = run1(ctx, cpx, f, af, {"data": carrier(good)})
+            v = p.value if p.terminal == "return" else None
+            ok = isinstance(v, tuple) and len(v) == 2 and v[0] == body[0] and as_bytes(v[1]) == body[1:]
+            ctx.require(ok, "unwrap-return", f"_unwrap({good.hex()}) {p.terminal}s {p.value!r}; a frame with a correct CRC must yield (control byte {body[0]:#04x}, "
+                        f"data field {body[1:].hex() or 'empty'})", func=f, trace=p.trace())
+        # every single-bit error, and (for the short bodies) every double-bit error, is detected: CRC-CCITT guarantees both
+        nbits = len(good) * 8
+        flips = [(i,) for i in range(nbits)] + ([(i, j) for i in range(nbits) for j in range(i + 1, nbits)] if len(good) <= 5 else [])
+        for fl in flips:
+            bad_frame = bytearray(good)
+            for bit in fl:
+                bad_frame[bit // 8] ^= 1 << (bit % 8)
+            p = run1(ctx, cpx, f, af, {"data": bytes(bad_frame)})
+            n_flip += 1
+            if not p.raised("ParsingError"):
+                ctx.violation("unwrap-gate", f"_unwrap accepts {bytes(bad_frame).hex()}, which differs from the valid frame {good.hex()} in bit(s) {list(fl)}: {p.terminal} {p.value!r} "
+                              "(the whole 2-byte CRC of data[:-2] must equal data[-2:])", func=f, trace=p.trace())
+        ctx.ok(1, ("bit-errors", len(good)))
+    ctx.case(n_flip)
     # every from_bytes goes through _unwrap before building its instance
     for cn in dispatch_classes(ctx):
         c, m = _cls_method(ctx, cn, "from_bytes")
@@ -611,7 +612,12 @@ def r02_1(ctx):
         # keyed by the entry point, the function that raises and its immediate caller (helpers extracted in between do not
         # make it a different finding)
         names_ = [c.split('.')[-1] for c in chain]
-        key = f"escape:{name}:{'>'.join(names_ if len(names_) <= 3 else [names_[0], '..'] + names_[-2:])}"
+        if len(names_) > 3:
+            # the "immediate caller" is the nearest function on the way that the pinned tree already had: a helper extracted since
+            # between a handler and the raising function is not a new place for the finding
+            via = next((n_ for n_ in reversed(names_[1:-1]) if n_ in _pinned_function_names()), names_[-2])
+            names_ = [names_[0], "..", via, names_[-1]]
+        key = f"escape:{name}:{'>'.join(names_)}"
         if key in seen:
             continue
         seen.add(key)
@@ -619,6 +625,24 @@ def r02_1(ctx):
     ctx.sample({"escape_set": sorted({(n, ">".join(c)) for n, c in out}), "functions_followed": sorted(esc.memo)})
     for q in esc.memo:
         ctx.fn(q)
+
+
+_PINNED_NAMES = []
+
+
+def _pinned_function_names():
+    """Names of the functions and methods the pinned tree defines (frozen facts, used only to key findings)."""
+    if not _PINNED_NAMES:
+        import json
+        import os
+
+        with open(os.path.join(os.path.dirname(os.path.dirname(__file__)), "pinned_shapes.json")) as fh:
+            shapes = json.load(fh)
+        names = set()
+        for v in shapes.values():
+            names |= set(v.get("methods", {}))
+        _PINNED_NAMES.append(names)
+    return _PINNED_NAMES[0]
 
 
 def _scan_models(ctx):
@@ -651,7 +675,7 @@ def _scan_models(ctx):
             ("self._write_frame", Outcomes(OK(None), RAISE("NcpFailure")))], rwe
 
 
-@rule("R02.2", ["C02", "C04"], "T-FUN", floor=20, fallback=("R02.5",))
+@rule("R02.2", ["C02", "C04"], "T-FUN", floor=20, fallback=("R02.5", "R02.6"))
 def r02_2(ctx):
     """One scanner iteration, per first reserved byte, over an abstract buffer B = A ++ r ++ rest (i = len(A)):
     FLAG -> frame A is unstuffed then parsed then delivered, rest kept, empty A ignored; any unstuff/parse failure
